@@ -208,6 +208,145 @@ Section Model.
     end end.
 End Model.
 
+(* ---------- per-call chain faults ---------- *)
+(* Every chain call of the two functions can fail at a scripted position: the k-th element of
+   the list of a call kind says whether the k-th call OF THAT KIND (counted from 0, per
+   function run) returns an error; calls beyond the list succeed.  A failing call is on top of
+   what the world itself answers ([lookup] = None, LErr, missing lists).  The functions return
+   at the first failing call, as the code is written: `if err != nil { return ... }` after
+   each of GetWallet, GetTxHashesForPublicKeyHash, GetTransaction (Determine) and
+   GetUtxosForPublicKeyHash, GetMempoolUtxosForPublicKeyHash, GetTransaction,
+   GetDepositRequest, GetMovedFundsSweepRequest (sync check).  [calls] = how many calls of
+   each kind were made, i.e. which positions of the script were CONSULTED. *)
+Record script := { f_wallet : list bool; f_hist : list bool; f_conf : list bool;
+                   f_mem : list bool; f_tx : list bool; f_dep : list bool; f_req : list bool }.
+Record calls := Calls { n_wallet : nat; n_hist : nat; n_conf : nat; n_mem : nat;
+                        n_tx : nat; n_dep : nat; n_req : nat }.
+Definition no_faults : script := {| f_wallet := []; f_hist := []; f_conf := []; f_mem := [];
+                                    f_tx := []; f_dep := []; f_req := [] |}.
+Definition bad (l : list bool) (k : nat) : bool := nth k l false.
+(* did one of the first n calls of a kind fail? *)
+Definition any_bad (l : list bool) (n : nat) : bool := existsb (fun b => b) (firstn n l).
+(* some CONSULTED call failed *)
+Definition faulted (F : script) (c : calls) : bool :=
+  any_bad (f_wallet F) (n_wallet c) || any_bad (f_hist F) (n_hist c) ||
+  any_bad (f_conf F) (n_conf c) || any_bad (f_mem F) (n_mem c) ||
+  any_bad (f_tx F) (n_tx c) || any_bad (f_dep F) (n_dep c) || any_bad (f_req F) (n_req c).
+
+Section Faulty.
+  Variable hash : utxo -> N.
+  Variable lookup : N -> option tx.
+  Variable is_dep is_req : N * N -> look.
+  Variable F : script.
+
+  (* ---- DetermineWalletMainUtxo; [kt] = GetTransaction calls made so far ---- *)
+  Fixpoint scan_txs_f (pkh : list N) (reg : N) (hs : list N) (kt : nat) : det_res * nat :=
+    match hs with
+    | [] => (DNotFound, kt)
+    | h :: rest =>
+        if bad (f_tx F) kt then (DChainErr, S kt) else
+        match lookup h with
+        | None => (DChainErr, S kt)
+        | Some t =>
+            match scan_outs hash pkh reg t 0%N (t_outs t) with
+            | Some u => (DUtxo u, S kt)
+            | None => scan_txs_f pkh reg rest (S kt)
+            end
+        end
+    end.
+
+  Definition determine_f (pkh : list N) (wallet : option N) (hashes : option (list N))
+    : det_res * calls :=
+    if bad (f_wallet F) 0 then (DChainErr, Calls 1 0 0 0 0 0 0) else
+    match wallet with
+    | None => (DChainErr, Calls 1 0 0 0 0 0 0)
+    | Some reg =>
+        if N.eqb reg 0 then (DNone, Calls 1 0 0 0 0 0 0) else
+        if bad (f_hist F) 0 then (DChainErr, Calls 1 1 0 0 0 0 0) else
+        match hashes with
+        | None => (DChainErr, Calls 1 1 0 0 0 0 0)
+        | Some hs => let (r, kt) := scan_txs_f pkh reg (rev hs) 0 in (r, Calls 1 1 0 0 kt 0 0)
+        end
+    end.
+
+  (* ---- EnsureWalletSyncedBetweenChains; k = (GetTransaction, GetDepositRequest,
+     GetMovedFundsSweepRequest) calls made so far ---- *)
+  Definition classify_f (u : utxo) (k : nat * nat * nat) : ucls * (nat * nat * nat) :=
+    let '(kt, kd, kr) := k in
+    if negb (N.eqb (u_idx u) 0) then (Clean, k) else
+    if bad (f_tx F) kt then (BrokenChain, (S kt, kd, kr)) else
+    match lookup (u_tx u) with
+    | None => (BrokenChain, (S kt, kd, kr))
+    | Some t =>
+        match t_in0 t with
+        | None => (BrokenPanic, (S kt, kd, kr))
+        | Some op =>
+            if bad (f_dep F) kd then (BrokenChain, (S kt, S kd, kr)) else
+            match is_dep op with
+            | LErr => (BrokenChain, (S kt, S kd, kr))
+            | LFound => (BadDeposit, (S kt, S kd, kr))
+            | LNotFound =>
+                if bad (f_req F) kr then (BrokenChain, (S kt, S kd, S kr)) else
+                match is_req op with
+                | LErr => (BrokenChain, (S kt, S kd, S kr))
+                | LFound => (BadMoved, (S kt, S kd, S kr))
+                | LNotFound => (Clean, (S kt, S kd, S kr))
+                end
+            end
+        end
+    end.
+  Fixpoint fresh_scan_f (all : list utxo) (k : nat * nat * nat) : sync_res * (nat * nat * nat) :=
+    match all with
+    | [] => (SOk, k)
+    | u :: rest =>
+        let (c, k') := classify_f u k in
+        match c with
+        | Clean => fresh_scan_f rest k'
+        | BadDeposit => (SErrDepositSweep, k')
+        | BadMoved => (SErrMovedSweep, k')
+        | BrokenChain => (SChainErr, k')
+        | BrokenPanic => (SPanic, k')
+        end
+    end.
+
+  Definition sync_f (main : option utxo) (conf mem : option (list utxo)) : sync_res * calls :=
+    if bad (f_conf F) 0 then (SChainErr, Calls 0 0 1 0 0 0 0) else
+    match conf with
+    | None => (SChainErr, Calls 0 0 1 0 0 0 0)
+    | Some cu =>
+        match main with
+        | Some m =>
+            (match cu with
+             | [] => SErrNoUtxos
+             | _ => if existsb (utxo_eqb m) (rev cu) then SOk else SErrSpent
+             end, Calls 0 0 1 0 0 0 0)
+        | None =>
+            if bad (f_mem F) 0 then (SChainErr, Calls 0 0 1 1 0 0 0) else
+            match mem with
+            | None => (SChainErr, Calls 0 0 1 1 0 0 0)
+            | Some mu =>
+                let '(r, (kt, kd, kr)) := fresh_scan_f (cu ++ mu) (0, 0, 0)%nat in
+                (r, Calls 0 0 1 1 kt kd kr)
+            end
+        end
+    end.
+
+  (* ---- executable property under faults, on the implementation's result [r] and the calls
+     it made [c] ----
+     sync check: it NEVER passes when a consulted call failed; when every consulted call
+     succeeded it passes exactly when in sync (sync_ok).  Determine: an error may be blamed on
+     a consulted failing call; every other result must be right for the world (det_ok). *)
+  Definition det_ok_f (c : calls) (pkh : list N) (wallet : option N) (hashes : option (list N))
+             (r : det_res) : bool :=
+    (match r with DChainErr => faulted F c | _ => false end)
+    || det_ok hash lookup pkh wallet hashes r.
+  Definition sync_ok_f (c : calls) (main : option utxo) (conf mem : option (list utxo))
+             (r : sync_res) : bool :=
+    if faulted F c
+    then match r with SOk | SPanic => false | _ => true end
+    else sync_ok lookup is_dep is_req main conf mem r.
+End Faulty.
+
 (* ---------- cases ---------- *)
 Record case := {
   c_pkh : list N;
@@ -221,7 +360,11 @@ Record case := {
   c_req : list ((N * N) * look);
   c_main : option utxo;           (* the main UTXO handed to the sync check *)
   c_det : det_res;                (* observed *)
-  c_sync : sync_res               (* observed *)
+  c_sync : sync_res;              (* observed *)
+  c_fdet : script;                (* scripted failures during DetermineWalletMainUtxo *)
+  c_fsync : script;               (* ... during EnsureWalletSyncedBetweenChains *)
+  c_ndet : calls;                 (* observed: chain calls made by DetermineWalletMainUtxo *)
+  c_nsync : calls                 (* observed: ... by EnsureWalletSyncedBetweenChains *)
 }.
 
 Fixpoint assoc {A B} (eqb : A -> A -> bool) (k : A) (l : list (A * B)) : option B :=
@@ -252,21 +395,29 @@ Definition sync_res_eqb (a b : sync_res) : bool :=
   | _, _ => false
   end.
 
-Definition model_det (c : case) : det_res :=
-  determine (case_hash c) (case_lookup c) (c_pkh c) (c_wallet c) (c_hashes c).
-Definition model_sync (c : case) : sync_res :=
-  sync (case_lookup c) (case_dep c) (case_req c) (c_main c) (c_conf c) (c_mem c).
+Definition calls_eqb (a b : calls) : bool :=
+  Nat.eqb (n_wallet a) (n_wallet b) && Nat.eqb (n_hist a) (n_hist b) &&
+  Nat.eqb (n_conf a) (n_conf b) && Nat.eqb (n_mem a) (n_mem b) &&
+  Nat.eqb (n_tx a) (n_tx b) && Nat.eqb (n_dep a) (n_dep b) && Nat.eqb (n_req a) (n_req b).
+
+Definition model_det (c : case) : det_res * calls :=
+  determine_f (case_hash c) (case_lookup c) (c_fdet c) (c_pkh c) (c_wallet c) (c_hashes c).
+Definition model_sync (c : case) : sync_res * calls :=
+  sync_f (case_lookup c) (case_dep c) (case_req c) (c_fsync c) (c_main c) (c_conf c) (c_mem c).
 
 (* a case is well formed when the wallet public key hash has 20 bytes (so that the scripts
    are the ones txscript builds) *)
 Definition well_formed (c : case) : bool := Nat.eqb (length (c_pkh c)) 20.
 
 Definition spec_ok (c : case) : bool :=
-  det_ok (case_hash c) (case_lookup c) (c_pkh c) (c_wallet c) (c_hashes c) (c_det c)
-  && sync_ok (case_lookup c) (case_dep c) (case_req c) (c_main c) (c_conf c) (c_mem c) (c_sync c).
+  det_ok_f (case_hash c) (case_lookup c) (c_fdet c) (c_ndet c)
+           (c_pkh c) (c_wallet c) (c_hashes c) (c_det c)
+  && sync_ok_f (case_lookup c) (case_dep c) (case_req c) (c_fsync c) (c_nsync c)
+               (c_main c) (c_conf c) (c_mem c) (c_sync c).
 Definition agree (c : case) : bool :=
-  det_res_eqb (c_det c) (model_det c) && sync_res_eqb (c_sync c) (model_sync c).
+  det_res_eqb (c_det c) (fst (model_det c)) && calls_eqb (c_ndet c) (snd (model_det c))
+  && sync_res_eqb (c_sync c) (fst (model_sync c)) && calls_eqb (c_nsync c) (snd (model_sync c)).
 
 Definition judge (c : case) : verdict :=
   if negb (well_formed c) then BadCase else decide (spec_ok c) (agree c).
-Definition explain (c : case) : det_res * sync_res := (model_det c, model_sync c).
+Definition explain (c : case) : (det_res * calls) * (sync_res * calls) := (model_det c, model_sync c).
